@@ -29,6 +29,7 @@ RULE = (
     "interpreter (a freshly spawned python that imports only the entry point and has not imported "
     "importlib.util).  Non-trivial = the input is rejected, or the history interleaves a failing and a succeeding "
     "text. distinct = (entry, text) resp. history."
+    " The history pool also holds sibling families (the same outer macro called with the same arguments over a different inner macro / let value / register size / a second register; parse-expand, parse, run and parse-rel entries); string mutations include boundary values put where a number stands (0, -1, fractions, 2**63, 1.0e300) and Windows line ends."
 )
 ASSUMPTIONS = [
     "raw character strings get the weak oracle only (an independent character-level lexer would duplicate the lexer's regular expressions)",
